@@ -9,6 +9,100 @@ def _strip(prefix, s):
     return s[len(prefix):] if s.startswith(prefix) else s
 
 
+def _dynamic_params(dyn, g):
+    """WHERE in _avoid_recursions.wrapper `inf.dynamic_params_depth` is incremented / decremented
+    (the model runs the bracket as it stands in the source; the theorem needs it balanced), and the
+    cut-off of _search_function_arguments."""
+    fn = dyn.find('_avoid_recursions.wrapper')
+    COUNTER = 'inf.dynamic_params_depth'
+
+    def bump(stmt):
+        """'inc' / 'dec' for `inf.dynamic_params_depth += 1` / `-= 1`, None for other statements"""
+        if COUNTER.split('.')[-1] not in u(stmt):
+            return None
+        if (isinstance(stmt, ast.AugAssign) and u(stmt.target) == COUNTER
+                and isinstance(stmt.value, ast.Constant) and stmt.value.value == 1
+                and isinstance(stmt.op, (ast.Add, ast.Sub))):
+            return 'inc' if isinstance(stmt.op, ast.Add) else 'dec'
+        return 'other'
+
+    def plain(stmts, place, out):
+        for st in stmts:
+            b = bump(st)
+            if b == 'other':
+                raise TieBroken('dynamic_params.py: _avoid_recursions touches dynamic_params_depth in a way '
+                                'the model does not know', u(st))
+            if b:
+                out.append('%s:%s' % (place, b))
+
+    body = [st for st in fn.body if not (isinstance(st, ast.Expr) and isinstance(st.value, ast.Constant))]
+    withs = [i for i, st in enumerate(body) if isinstance(st, ast.With)]
+    if len(withs) != 1 or withs[0] != len(body) - 1:
+        raise TieBroken('dynamic_params.py: _avoid_recursions.wrapper does not end with one `with` block', u(fn))
+    w = body[withs[0]]
+    if u(body[0]) != 'inf = function_value.inference_state':
+        raise TieBroken('dynamic_params.py: _avoid_recursions.wrapper: `inf` is not function_value.inference_state',
+                        u(body[0]))
+    item = u(w.items[0]) if len(w.items) == 1 else None
+    if item != 'recursion.execution_allowed(inf, function_value.tree_node) as allowed':
+        raise TieBroken('dynamic_params.py: _avoid_recursions guards with something else than '
+                        'recursion.execution_allowed(inf, function_value.tree_node)', repr(item))
+    out = []
+    plain(body[1:-1], 'pre', out)
+    wbody = [st for st in w.body if not (isinstance(st, ast.Expr) and isinstance(st.value, ast.Constant))]
+    if not (len(wbody) >= 2 and isinstance(wbody[0], ast.If) and u(wbody[0].test) == 'allowed'
+            and not wbody[0].orelse and u(wbody[-1]) == 'return NO_VALUES'):
+        raise TieBroken('dynamic_params.py: _avoid_recursions: the with block is not '
+                        '`if allowed: ... ; return NO_VALUES`', u(w))
+    ibody = wbody[0].body
+    if not (ibody and isinstance(ibody[-1], ast.Try)):
+        raise TieBroken('dynamic_params.py: _avoid_recursions: `if allowed:` does not end with a try statement',
+                        u(wbody[0]))
+    t = ibody[-1]
+    if t.handlers or t.orelse or [u(x) for x in t.body] != ['return func(function_value, param_index)']:
+        raise TieBroken('dynamic_params.py: _avoid_recursions: the try statement is not '
+                        '`try: return func(function_value, param_index) finally: ...`', u(t))
+    plain(ibody[:-1], 'allowed', out)
+    plain(t.finalbody, 'finally', out)
+    plain(wbody[1:-1], 'blocked', out)
+    g.define('dynBracket', 'List String', lean_list(out),
+             'jedi/inference/dynamic_params.py:_avoid_recursions.wrapper - where dynamic_params_depth is '
+             'incremented / decremented (pre = before the with, allowed = in `if allowed:` before the try, '
+             'finally = in its finally, blocked = after the if)')
+
+    # the cut-off of the call-site search
+    mx = [n for n in dyn.tree.body if isinstance(n, ast.Assign) and u(n.targets[0]) == 'MAX_PARAM_SEARCHES']
+    if len(mx) != 1 or not isinstance(mx[0].value, ast.Constant) or not isinstance(mx[0].value.value, int):
+        raise TieBroken('dynamic_params.py: MAX_PARAM_SEARCHES is not an int constant')
+    g.define('maxParamSearches', 'Nat', str(mx[0].value.value), 'jedi/inference/dynamic_params.py:MAX_PARAM_SEARCHES')
+    sf = dyn.find('_search_function_arguments')
+    cuts = []
+    for n in ast.walk(sf):
+        if isinstance(n, ast.For):
+            for j, st in enumerate(n.body):
+                if isinstance(st, ast.If) and 'MAX_PARAM_SEARCHES' in u(st.test):
+                    before = [u(x) for x in n.body[:j]]
+                    cuts.append((before, u(st.test), [u(x) for x in st.body]))
+    ok_tests = {'i * inference_state.dynamic_params_depth > MAX_PARAM_SEARCHES',
+                # with proposed_fixes/c16-dynamic-params-depth-in-memo-key.diff the depth is an argument
+                'i * depth > MAX_PARAM_SEARCHES'}
+    inits = [u(n) for n in sf.body if isinstance(n, ast.Assign) and u(n.targets[0]) == 'i']
+    if (len(cuts) != 1 or cuts[0][0] != ['i += 1'] or cuts[0][1] not in ok_tests or cuts[0][2] != ['return']
+            or inits != ['i = 0']):
+        raise TieBroken('dynamic_params.py: _search_function_arguments no longer cuts the search with '
+                        '`i = 0 ... i += 1; if i * <depth> > MAX_PARAM_SEARCHES: return`', repr((inits, cuts)))
+    if cuts[0][1] == 'i * depth > MAX_PARAM_SEARCHES':
+        args = [a.arg for a in sf.args.args]
+        call = [n for n in ast.walk(dyn.find('dynamic_param_lookup'))
+                if isinstance(n, ast.Call) and u(n.func) == '_search_function_arguments']
+        if (args[-1:] != ['depth'] or len(call) != 1
+                or u(call[0].args[-1]) != 'function_value.inference_state.dynamic_params_depth'):
+            raise TieBroken('dynamic_params.py: the `depth` of _search_function_arguments is not '
+                            'inference_state.dynamic_params_depth of the caller', repr(args))
+    g.define('searchCut', 'String', '"i * dynamic_params_depth > MAX_PARAM_SEARCHES"',
+             'jedi/inference/dynamic_params.py:_search_function_arguments (i = 0; per call site: i += 1; if <cut>: return)')
+
+
 def generate(repo, g):
     helpers = Src(repo, 'jedi/api/helpers.py')
     classes = Src(repo, 'jedi/api/classes.py')
@@ -114,6 +208,7 @@ def generate(repo, g):
              'jedi/inference/context.py:predefine_names')
     g.define('dynDepthSwitch', 'List String', lean_list(try_finally(dyn, '_avoid_recursions')),
              'jedi/inference/dynamic_params.py:_avoid_recursions')
+    _dynamic_params(dyn, g)
 
     # --- the cap (shared with C15)
     fn = st.find('_limit_value_infers.wrapper')
@@ -131,5 +226,6 @@ def generate(repo, g):
     for s, d in [(helpers, 'sorted_definitions'), (classes, 'Name.__eq__'), (classes, 'Name.__hash__'),
                  (api, 'Script.infer'), (api, 'Script.goto'), (api, 'Script.get_references'),
                  (api, 'Script._analysis'), (inf, 'InferenceState.reset_recursion_limitations'),
-                 (refs, 'find_references'), (context, 'AbstractContext.predefine_names'), (dyn, '_avoid_recursions')]:
+                 (refs, 'find_references'), (context, 'AbstractContext.predefine_names'), (dyn, '_avoid_recursions'),
+                 (dyn, '_search_function_arguments')]:
         g.fp(s, d)
